@@ -199,6 +199,10 @@ def check_history(acc: Acc, case):
                           "configured retries=%d" % (k, prefix, len(times), times, R), case))
         if probe.kind == "ok":
             fails.append(("C05|%s|probe-outcome" % cfg, "probe answered only by invalid datagrams ended with a response", case))
+        elif dur > (R + 1) * T + EPS:
+            # invalid datagrams may end an attempt early, they never buy a request more time than retries+1 time-outs
+            fails.append(("C05|%s|failure-time" % cfg, "probe answered only by pairs of invalid datagrams (%s) after prefix %s failed after %r s, more than "
+                          "(retries+1) x timeout = %r (transmissions at %s)" % (k, prefix, dur, (R + 1) * T, times), case))
     elif isinstance(k, str):
         if probe.kind != "ok":
             fails.append(("C05|%s|valid-slow-answer-not-accepted" % cfg,
